@@ -800,6 +800,10 @@ func Run(plan *Plan) *Result {
 			// unless the action is busy); children of a split carry no such field
 			MatchConditions: pipeline.MatchConditions{{Field: []string{fmt.Sprintf("m%d", a)}, Values: []string{"1"}}},
 			MatchMode:       pipeline.MatchModeAnd,
+			// the optional per-action event counter with labels taken from event fields: every processor
+			// resolves (and sometimes creates) label series concurrently
+			MetricName:   fmt.Sprintf("sim_action_%d", a),
+			MetricLabels: []string{"stream", "m0"},
 		})
 	}
 	s.outMain = &simOutput{sim: s, plan: &plan.Output, role: "main"}
